@@ -483,4 +483,15 @@ def to_case_c04(ob):
         for T in range(0, 3 * l2 + 3):
             cases.append(dict(b, ops=[["chunk", T, 1, "f8"], ["finalize"], ["chunk", 2 * l2 + 1, 2, "f8"], ["finalize"]]))
             cases.append(dict(b, ops=[["chunk", T, 1, "f8"], ["full", 3, 5, "f8"], ["finalize"], ["fbf", 2 * l2 + 1, 2, "f8", 3]]))
+    if getattr(ob, "verdict", None) != "refuted":
+        # behind a candidate / model-less obligation: every small geometry; a first utterance that ends without a final frame, with one, too
+        # short for any; then an utterance whose last chunk is a single sample after a frame-sized one (the end reflection then reaches
+        # into what the buffer remembers, so stale history shows)
+        for l2 in range(1, 9):
+            for s2 in range(1, l2 + 1):
+                b = dict(base, frame_length=l2, frame_shift=s2)
+                for T in sorted({0, 1, l2 // 2, l2 // 2 + 1, l2, l2 + 1, l2 + s2, 2 * l2 + 1}):
+                    for n2, c2 in sorted({(l2 + 1, l2), (l2 + 2, l2), (l2 // 2 + 1, l2), (max(1, l2 - 1), l2), (max(1, l2 - 1), 1)}):
+                        # (also a second utterance SHORTER than a frame: its frames exist by reflection only)
+                        cases.append(dict(b, ops=[["chunk", T, max(1, T), "f8"], ["finalize"], ["chunk", n2, c2, "f8"], ["finalize"]]))
     return cases
